@@ -72,7 +72,7 @@ def floors(acc, tier):
         _w.need(acc, msgs, "routes_ok_%dhop" % h, 40)
     _w.need(acc, msgs, "routes_ok_revisiting_final_asset", 5)
     _w.need(acc, msgs, "worlds_with_exhaustive_walk", 48)
-    for bm in ("empty", "dangling", "merge"):
+    for bm in ("empty", "dangling", "merge", "side_branch", "repeat_hop"):
         if not any(("|" + bm + "|") in k for k in acc.classes):
             msgs.append("bad route shape %s never attempted" % bm)
     return msgs
